@@ -194,7 +194,7 @@ class LinePattern:
         self.own = True
         try:
             self.rx = Regex(p.text, p.flags)
-            bad = cross_validate(self.rx, samples)
+            bad = cross_validate(self.rx, samples + [self.PRE + x + self.POST for x in samples])
         except AnalysisError as e:
             bad = [str(e)]
         if bad:
@@ -214,6 +214,25 @@ class LinePattern:
 
     def matches(self, line: str) -> list[tuple[int, int, dict]]:
         """(start, end, {group name or index of an unnamed group: captured text or None}) per match, as the call site would see them."""
+        how = self.site.how
+        whole_text = how in ("finditer", "findall", "split", "sub", "subn")
+        if whole_text:
+            # the call site scans the whole diagram: the documented line is one line among others
+            return self._in_context(line)
+        return self._matches(line)
+
+    PRE, POST = "%%%\n", "\n%%%"
+
+    def _in_context(self, line: str) -> list[tuple[int, int, dict]]:
+        off = len(self.PRE)
+        out = []
+        for a, b, caps in self._matches(self.PRE + line + self.POST):
+            if b <= off or a >= off + len(line):
+                continue  # a match inside the neutral context lines
+            out.append((a - off, b - off, caps))
+        return out
+
+    def _matches(self, line: str) -> list[tuple[int, int, dict]]:
         how = self.site.how
         if isinstance(self.rx, StdRegex):
             raw = self.rx.spans(line, how)
@@ -400,7 +419,7 @@ def run(repo: Repo) -> Result:
         k += 1
         if conflict & {"name", "alias"}:
             continue
-        construct = f"{anchor_decl.key()}::form `{line}`"
+        construct = f"{anchor_decl.key() if decl_lps else parse_key}::form `{line}`"
         if ambiguous(got):
             res.undecide("C06.R1", construct, f"several name groups bind different texts in one match: {got}", anchor_decl.where())
             continue
@@ -417,7 +436,7 @@ def run(repo: Repo) -> Result:
         k += 1
         if conflict & {"tail", "head"}:
             continue
-        construct = f"{anchor_dep.key()}::form `{line}`"
+        construct = f"{anchor_dep.key() if dep_lps else parse_key}::form `{line}`"
         if ambiguous(got):
             res.undecide("C06.R1", construct, f"several groups of one side bind different texts in one match: {got}", anchor_dep.where())
             continue
@@ -733,6 +752,12 @@ def check_tags(repo: Repo, res: Result, parser: ClassInfo, error_cls: ClassInfo,
         got_lines = {l.strip() for v in seen if isinstance(v, str) for l in v.splitlines() if l.strip()}
         ok = all(isinstance(v, str) for v in seen) and got_lines == want_lines
         res.add("C06.R4", construct, ok, "text outside @startuml/@enduml is ignored, text between is kept" if ok else f"the text scanned for declarations / arrows is {seen!r}, not the text between @startuml and @enduml ({BODY!r})", parse_where, kind="regex-language")
+    # a pattern applied once (search / match) to a text of several lines reads only one of them
+    if completed:
+        for st in subjects:
+            if st.how in ("search", "match", "fullmatch") and st.subject.concrete and any(isinstance(v, str) and len([l for l in v.splitlines() if l.strip()]) > 1 for v in st.subject.values()):
+                key_ = repo.key(st.fi, st.node) if st.fi is not None else parse_key
+                res.add("C06.R1", key_ + " [applied once to the whole diagram]", False, f"`{norm(st.node, 60)}` applies the pattern once to the text between the tags ({len(BODY.strip().splitlines())} lines in the sample): only the first declaration / arrow of a diagram is read", f"{st.fi.relpath}:{st.node.lineno}" if st.fi is not None else parse_where, kind="regex-language")
     # rejected contents
     for what, content in REJECTED:
         interp, _v, completed = interpret(repo, parser, A.const(content))
